@@ -60,7 +60,13 @@ func (e *Engine) load(u Unit, repoRoot string) error {
 		return err
 	}
 	var errs []string
+	inTree := map[string]bool{}
 	packages.Visit(pkgs, nil, func(p *packages.Package) {
+		for _, f := range p.GoFiles {
+			if strings.HasPrefix(f, repoRoot+"/") {
+				inTree[p.PkgPath] = true
+			}
+		}
 		for _, er := range p.Errors {
 			if strings.HasPrefix(p.PkgPath, repoModulePrefix) {
 				errs = append(errs, er.Error())
@@ -86,7 +92,9 @@ func (e *Engine) load(u Unit, repoRoot string) error {
 		file := filepath.Join(repoRoot, rel, "verif_contracts.go")
 		cs := newContractSet()
 		cs.Pkg = p.Pkg.Path()
-		if _, err := os.Stat(file); err == nil {
+		// a package of the repository's module path that was resolved from the module cache (a nested module
+		// depending on a released version of the root module) is not the working tree: its functions carry no contracts
+		if _, err := os.Stat(file); err == nil && inTree[p.Pkg.Path()] {
 			if err := cs.parseFile(file); err != nil {
 				return err
 			}
